@@ -31,7 +31,7 @@ func main() {
 		"non-trivial = a full Encrypt/Close/Decrypt/ReadAll round trip whose identity-consultation log was checked; " +
 		"distinct by that tuple"
 	r.Assumptions = []string{
-		"plaintext lengths up to 300 chunks; lists up to 8 recipients",
+		"plaintext lengths up to 300 chunks; lists up to 100 recipients (300 in thorough)",
 		"scrypt work factor 4 for passphrase parties (cost only)",
 		"RSA test keys are 2048 and 3072 bits",
 	}
@@ -73,6 +73,28 @@ func main() {
 		lists = append(lists, l)
 	}
 
+	// very long lists: sizes around multiples of 8, 16, 32 and beyond one
+	// byte's worth of stanzas; mostly native parties made on demand, with a
+	// few of the other kinds dropped in at seeded places
+	manySizes := []int{15, 16, 17, 31, 33, 40, 65, 100}
+	if r.Thorough() {
+		manySizes = append(manySizes, 9, 32, 47, 48, 49, 63, 64, 127, 128, 129, 255, 256, 257, 300)
+	}
+	var many [][]string
+	for si, n := range manySizes {
+		l := make([]string, n)
+		for j := range l {
+			l[j] = fmt.Sprintf("XN%d", j)
+		}
+		if si%2 == 1 {
+			for _, o := range []string{"E1", "R1", "U1", "E2", "U4"} {
+				l[rng.Intn(n)] = o
+			}
+		}
+		many = append(many, l)
+	}
+	lists = append(lists, many...)
+
 	var cases []encCase
 	for li, l := range lists {
 		var lens []int
@@ -81,6 +103,9 @@ func main() {
 			lens = append(lens, 3+rng.Intn(60000), 65536+rng.Intn(65536))
 		} else {
 			lens = []int{boundary[li%3], boundary[3+li%8], 3 + rng.Intn(300)}
+		}
+		if len(l) > 8 {
+			lens = []int{3 + rng.Intn(300), boundary[3+li%8]}
 		}
 		for _, n := range lens {
 			cases = append(cases, encCase{list: l, length: n})
@@ -114,6 +139,9 @@ func main() {
 		c := cases[i]
 		r.Guard(fmt.Sprintf("%v/%d/%v", c.list, c.length, c.armored), func() { runCase(r, i, c) })
 	})
+	if r.Counter("very_long_list_files") == 0 {
+		r.Inconclusive("no file with more than 8 recipients was exercised")
+	}
 	r.Finish()
 }
 
@@ -154,13 +182,16 @@ func runCase(r *mon.Run, idx int, c encCase) {
 	}
 	r.Tab("length", lenClass(c.length))
 	r.Tab("list_len", fmt.Sprint(len(c.list)))
+	if len(c.list) > 8 {
+		r.Count("very_long_list_files", 1)
+	}
 	r.Tab("armor", fmt.Sprint(c.armored))
 
 	fill := fillers(c.list)
 	rng := mon.NewRNG(r.Seed, fmt.Sprintf("c01-ids-%d", idx))
 	seen := map[string]bool{}
 	big := c.length > 1<<20
-	for _, p := range parties {
+	for pi, p := range parties {
 		if p.Identity == nil || seen[p.Name] {
 			continue
 		}
@@ -168,6 +199,10 @@ func runCase(r *mon.Run, idx int, c encCase) {
 		positions := []int{0, 1, 2, 3}
 		if big {
 			positions = []int{1}
+		}
+		if len(c.list) > 8 {
+			// every recipient of a very long list is tried, at one seeded position
+			positions = []int{rng.Intn(3)}
 		}
 		for _, pos := range positions {
 			ids := make([]age.Identity, 0, pos+2)
@@ -193,6 +228,7 @@ func runCase(r *mon.Run, idx int, c encCase) {
 			key := fmt.Sprintf("%s id=%s pos=%d fill=%v after=%d", caseName, p.Name, pos, fillNames, after)
 			r.Distinct(key)
 			r.Tab("kind_x_pos", fmt.Sprintf("%c@%d", p.Kind, pos))
+			r.Tab("matching_stanza_index", idxClass(pi))
 			replay := map[string]any{"list": c.list, "len": c.length, "armor": c.armored, "identity": p.Name, "pos": pos, "fillers": fillNames, "after": after}
 			if !res.Clean() {
 				r.Violate("decrypt-failed:"+key, fmt.Sprintf("%s: listed recipient could not decrypt: %s", key, res), replay)
@@ -222,6 +258,24 @@ func runCase(r *mon.Run, idx int, c encCase) {
 
 func pickBuf(rng *rand.Rand) int {
 	return []int{1 << 15, 4096, 65536, 65537, 100, 200000, ax.CopyMode, ax.ReadAllMode}[rng.Intn(8)]
+}
+
+func idxClass(i int) string {
+	switch {
+	case i < 8:
+		return fmt.Sprint(i)
+	case i < 16:
+		return "8-15"
+	case i < 32:
+		return "16-31"
+	case i < 64:
+		return "32-63"
+	case i < 128:
+		return "64-127"
+	case i < 256:
+		return "128-255"
+	}
+	return ">=256"
 }
 
 func lenClass(n int) string {
